@@ -27,6 +27,8 @@ MUTATION_WEIGHTS = {
     "set_row_values": 3, "set_row_cells": 3, "set_values": 4, "set_cells": 4,
     "set_column_values": 2, "set_column_cells": 2, "insert_column": 5, "append_column": 2,
     "delete_column": 5, "set_column": 2, "clear": 0.3, "row_edit": 6, "cell_edit": 4,
+    # read an area / a column and push the copies straight back: the identity on the grid
+    "pushback": 4,
 }
 
 # ops without grid semantics: weight per property
@@ -583,6 +585,12 @@ class TableEngine:
             op["to"] = dict(op["c"]) if rng.chance(0.6, "same_c") else self._coord(rng, tv)
             if rng.chance(0.3, "noclone"):
                 op["clone"] = False
+        elif name == "pushback":
+            op["kind"] = rng.choice(["cells", "cells", "column"], "pbkind") if W > 0 else "cells"
+            if op["kind"] == "cells":
+                op["area"] = self._area(rng, tv)
+            else:
+                op["x"] = rng.randint(0, W - 1, "pbx")
         elif name == "rstrip":
             if rng.chance(0.5, "aggr"):
                 op["aggressive"] = True
@@ -856,6 +864,14 @@ class TableEngine:
             sut_exc_detail = f"{type(e).__name__}: {e}"
         self._outcome = f"{name}:{sut_exc or 'ok'}"
         vs = self._oracles(op, tv, feats, sut_exc, aux, detail=sut_exc_detail)
+        if name in ("live_row_rep", "live_cell_rep") and not vs and sut_exc is None:
+            # the staleness these setters leave behind (known C02 findings) does not always show in the
+            # reads of this very step; it must not be attributed to a later, innocent op: the table is
+            # re-parsed from its XML before the history goes on
+            self.stats.probe("live_rep_reparsed")
+            self.sut.restart("xml")
+            if self.prop == "C01":
+                self.grid = Grid.from_view(self.sut.view())
         tv2 = None
         try:
             tv2 = self.sut.view()
